@@ -4260,7 +4260,20 @@ impl<'a> Parser<'a> {
         let mut patterns = self.parse_pattern_alternatives()?;
         self.expect('|')?;
         self.skip_ws();
-        let body = self.parse_expr()?;
+        // The body swallows everything to its right, so `1 as $x | 1 as $x | ...`
+        // recurses here once per binding without ever passing through
+        // `parse_primary`'s guard; charge each binding as one nesting level.
+        self.expr_depth += 1;
+        let body = if self.expr_depth > MAX_EXPR_DEPTH {
+            Err(ParseError::new(
+                format!("expression nesting exceeds depth limit of {MAX_EXPR_DEPTH}"),
+                self.pos,
+            ))
+        } else {
+            self.parse_expr()
+        };
+        self.expr_depth -= 1;
+        let body = body?;
 
         // No `?//` alternatives: keep the simpler, pre-existing `Expr::As`
         // shape for a bare `$var` pattern (every other `Expr::As` call site
